@@ -74,6 +74,10 @@ def check_vector_repr(v, vals, limit):
         if len(body) != n: return 'vector of %d with limit %d shows %d body lines' % (n, limit, len(body))
         shown = list(vals); got = body
     else:
+        # n == limit: either form is acceptable, but an ellipsis must stand for something that is actually left out
+        ell = [b for b in body if b.strip() == '...']
+        if ell and not any(isinstance(x, str) and x.strip() == '...' for x in vals):
+            if len(body) - len(ell) >= n: return 'vector of %d (== limit) shows all %d elements AND an ellipsis line' % (n, n)
         return None
     kind = v.schema().kind if v.schema() is not None else None
     if kind is int or kind is str:
@@ -123,6 +127,12 @@ def check_table_repr(t, cols_vals, names, limit, colmax=5):
     else:
         nshown = None
     simple = all(all(x is None or type(x) is int for x in cv) for cv in cols_vals)
+    if nshown is None and simple and R == limit:
+        ell_rows = [ln for ln in lines[:-2] if ln.split() and all(tk == '...' for tk in ln.split())]
+        if ell_rows:
+            # an ellipsis row must stand for rows that are actually left out
+            data_rows = [ln for ln in lines[:-2] if ln.split() and ln not in ell_rows and all(re.match(r'^(-?\d+|None|\.\.\.)$', tk) for tk in ln.split())]
+            if len(data_rows) >= R: return 'table of %d rows (== limit) shows all rows AND an ellipsis row' % R
     if nshown is not None and simple:
         body = lines[-2 - nshown:-2] if nshown else []
         head = lines[:len(lines) - 2 - nshown]
@@ -211,6 +221,13 @@ def _table_body(R, W, limit, per_table, mix, namepat, nonecol):
             t._repr_rows = limit
         why = check_table_repr(t, cols_vals, names, limit)
         if why: return H.fail(why)
+        if not per_table:
+            # the global setting is read at every repr: changing it afterwards changes the next repr of the SAME object
+            limit2 = limit + 4 if limit <= 6 else 4
+            serif.set_repr_rows(limit2)
+            why = check_table_repr(t, cols_vals, names, limit2)
+            if why: return H.fail('after set_repr_rows(%d) following an earlier repr under %d: %s' % (limit2, limit, why))
+            if getattr(t, '_repr_rows', None) is not None: return H.fail('repr left a per-table row limit behind (%r)' % (t._repr_rows,))
     finally:
         serif.set_repr_rows(None)
     return True
